@@ -128,25 +128,40 @@ def dbTempAndHrFromWbRh (wb rh p : α) : α × α :=
 
 /-! ### dew point by Newton–Raphson (90-138) -/
 
-/-- The `while True` loop: `fuel` = iterations still allowed (the code allows 101: `index` runs
-    1 … 101 and the test `index > 100` comes after the update). Returns the last `td`. -/
+/-- partial pressure of water vapour (first two lines of `dew_point_from_db_rh`) -/
+def dewPw (db rh : α) : α :=
+  let pws := satVapPres (db + 273.15)
+  pws * (rh / 100.0)
+
+/-- One Newton–Raphson update (the four assignments of the loop body): the new `td` from the old one. -/
+def newtonStep (lnVp tdIter : α) : α :=
+  let lnVpIter := log (satVapPres (tdIter + 273.15))
+  let dLnVp := dLnPws tdIter
+  tdIter - (lnVpIter - lnVp) / dLnVp
+
+/-- `math.fabs(td - td_iter) <= 0.1`: the convergence test. -/
+abbrev newtonStop (td tdIter : α) : Prop := fabs (td - tdIter) ≤ 0.1
+
+/-- `if (index > 100): break` – `index` starts at 1 and is incremented after the test, so the loop body
+    runs at most `newtonMaxIndex + 1` = 101 times. -/
+def newtonMaxIndex : Nat := 100
+
+/-- The `while True` loop: `fuel` = iterations still allowed. Returns the last `td`. -/
 def dewNewton (lnVp : α) : Nat → α → α
   | 0, td => td
   | n + 1, tdIter =>
-    let lnVpIter := log (satVapPres (tdIter + 273.15))
-    let dLnVp := dLnPws tdIter
-    let td := tdIter - (lnVpIter - lnVp) / dLnVp
-    if fabs (td - tdIter) ≤ 0.1 then td else dewNewton lnVp n td
+    let td := newtonStep lnVp tdIter
+    if newtonStop td tdIter then td else dewNewton lnVp n td
+
+/-- `min(td, db_temp)` (CPython keeps the first argument unless the second is smaller). -/
+def dewClamp (td db : α) : α := if db < td then db else td
 
 /-- `dew_point_from_db_rh(db_temp, rel_humid)`.  `math.log(p_w)` raises for `p_w <= 0`, which the
     code turns into −273.15. -/
 def dewPointFromDbRh (db rh : α) : α :=
-  let pws := satVapPres (db + 273.15)
-  let pw := pws * (rh / 100.0)
+  let pw := dewPw db rh
   if pw ≤ 0.0 then -273.15
-  else
-    let td := dewNewton (log pw) 101 db
-    if db < td then db else td          -- min(td, db_temp)
+  else dewClamp (dewNewton (log pw) (newtonMaxIndex + 1) db) db
 
 /-! ### wet bulb by bisection (141-180) -/
 
@@ -163,17 +178,27 @@ def bisStep (db hr p : α) (s : Bis α) : Bis α :=
   let inf := if hr < wStar then s.inf else s.wb
   ⟨sup, inf, (sup + inf) / 2.0⟩
 
-/-- The `while (sup - inf) > 0.1` loop with at most `fuel` passes (the code allows 100). -/
+/-- `(wb_temp_sup - wb_temp_inf) > 0.1`: the loop test. -/
+abbrev bisContinue (sup inf : α) : Prop := 0.1 < sup - inf
+
+/-- `if index >= 100: break` after the update, `index` starting at 1: at most `bisMaxIndex` passes. -/
+def bisMaxIndex : Nat := 100
+
+/-- The `while (sup - inf) > 0.1` loop with at most `fuel` passes. -/
 def bisLoop (db hr p : α) : Nat → Bis α → Bis α
   | 0, s => s
-  | n + 1, s => if 0.1 < s.sup - s.inf then bisLoop db hr p n (bisStep db hr p s) else s
+  | n + 1, s => if bisContinue s.sup s.inf then bisLoop db hr p n (bisStep db hr p s) else s
 
-/-- `wet_bulb_from_db_rh(db_temp, rel_humid, b_press)` -/
-def wetBulbFromDbRh (db rh p : α) : α :=
+/-- humidity ratio and the initial bracket / guess (first four assignments of `wet_bulb_from_db_rh`) -/
+def bisInit (db rh p : α) : α × Bis α :=
   let hr := humidRatioFromDbRh db rh p
   let sup := db
   let inf := dewPointFromDbRh db rh
-  (bisLoop db hr p 100 ⟨sup, inf, (inf + sup) / 2.0⟩).wb
+  (hr, ⟨sup, inf, (inf + sup) / 2.0⟩)
+
+/-- `wet_bulb_from_db_rh(db_temp, rel_humid, b_press)` -/
+def wetBulbFromDbRh (db rh p : α) : α :=
+  (bisLoop db (bisInit db rh p).1 p bisMaxIndex (bisInit db rh p).2).wb
 
 /-- `wet_bulb_from_db_hr` -/
 def wetBulbFromDbHr (db hr p : α) : α :=
@@ -197,12 +222,19 @@ def dewPointFromDbWb (db wb p : α) : α :=
 def magnusNoaa (t : α) : α :=
   6.112 * pow 2.718281828459045 ((17.67 * t) / (t + 243.5))
 
+/-- `es`, `e` of both fast functions: vapour pressure in hPa -/
+def fastE (db rh : α) : α :=
+  let es := magnusNoaa db
+  (es * rh) / 100.0
+
+/-- the value returned inside the `try` of `dew_point_from_db_rh_fast` -/
+def dewFastValue (e : α) : α :=
+  (243.5 * log (e / 6.112)) / (17.67 - log (e / 6.112))
+
 /-- `dew_point_from_db_rh_fast` (`math.log` raises for `e / 6.112 <= 0` → −273.15). -/
 def dewPointFast (db rh : α) : α :=
-  let es := magnusNoaa db
-  let e := (es * rh) / 100.0
-  if e / 6.112 ≤ 0.0 then -273.15
-  else (243.5 * log (e / 6.112)) / (17.67 - log (e / 6.112))
+  let e := fastE db rh
+  if e / 6.112 ≤ 0.0 then -273.15 else dewFastValue e
 
 /-- State of the sign-change search of `wet_bulb_from_db_rh_fast`. -/
 structure FastSt (α : Type) where
@@ -211,15 +243,22 @@ structure FastSt (α : Type) where
   prevPos : Bool          -- previoussign == 1
   ed : α
 
+/-- `e_wg`, `eg`, `e_d` of the loop body: the vapour-pressure residual at the guess `t_w`. -/
+def fastEd (tw p db e : α) : α :=
+  let eWg := magnusNoaa tw
+  let eg := eWg - (p / 100.0) * (db - tw) * 0.00066 * (1.0 + (0.00155 * tw))
+  e - eg
+
+/-- `math.fabs(e_d) > 0.005`: the loop test. -/
+abbrev fastContinue (ed : α) : Prop := 0.005 < fabs ed
+
 /-- The `while math.fabs(e_d) > 0.005` loop; the code has no iteration limit, the model returns
     `none` when `fuel` passes were not enough. -/
 def wbFastLoop (db e p : α) : Nat → FastSt α → Option α
   | 0, _ => none
   | n + 1, s =>
-    if 0.005 < fabs s.ed then
-      let eWg := magnusNoaa s.tw
-      let eg := eWg - (p / 100.0) * (db - s.tw) * 0.00066 * (1.0 + (0.00155 * s.tw))
-      let ed := e - eg
+    if fastContinue s.ed then
+      let ed := fastEd s.tw p db e
       if ed ≤ 0.0 ∧ 0.0 ≤ ed then some s.tw         -- `if e_d == 0: break`
       else
         let curPos : Bool := !(decide (ed < 0.0))
@@ -232,9 +271,7 @@ def wbFastLoop (db e p : α) : Nat → FastSt α → Option α
 
 /-- `wet_bulb_from_db_rh_fast(db_temp, rel_humid, b_press)` -/
 def wetBulbFast (db rh p : α) (fuel : Nat := 100000) : Option α :=
-  let es := magnusNoaa db
-  let e := (es * rh) / 100.0
-  wbFastLoop db e p fuel ⟨0.0, 10.0, true, 1.0⟩
+  wbFastLoop db (fastE db rh) p fuel ⟨0.0, 10.0, true, 1.0⟩
 
 /-! ### users: design-day humidity profile (designday.py) -/
 
